@@ -3,6 +3,8 @@
 
   FutureFSM       labtech.runners.process.Future
   SmallModels     labtech.utils.LoggerFileProxy, labtech.utils.OrderedSet, labtech.runners.process.ProcessMonitor
+  LabRun (Grow)   task naming (G01) and progress bars (G02) of TaskCoordinator.run: model-checked through the
+                  refinement mapping, then judged by the monitor on executions along TLC-generated schedules
 """
 from __future__ import annotations
 
@@ -30,6 +32,40 @@ def _one(scratch, module, gen_cfg, judge_cfg, rig, jobfn, keep):
                                                     f'{len(bad)} disagree' + (f'; first: {json.dumps(first)[:300]}' if first else ''))
 
 
+def labrun_growth(scratch):
+    """G01 / G02: the same flow as the LabRun-based property checks (model check, schedules, R2 executions, monitor)."""
+    import random
+    from lv import families
+    from lv.families import UNL
+    seed = harness.seed_from_env()
+    cfgs = families.family(3, seed=seed, ntypes=2, maxpars=(1, UNL), maxws=(1, 2), backends=('fork', 'spawn', 'serial'),
+                           cached='all-subsets', reqs='subsets', fails='singles', cofs=(True, False), sample=400)
+    invs = ['A_G01_Names', 'A_G02_Bars', 'A_G02_Count', 'A_G02_Closed']
+    mc = harness.model_check(cfgs, harness.labrun_cfg_text(invariants=invs, max_int=1, grow=True), scratch, tag='grow')
+    if mc.error or mc.violated:
+        return False, f'LabRun(Grow): model failed: {mc.error or mc.violated}\n{tlc.compact_cex(mc.cex)[:2000]}'
+    scheds = harness.simulate_schedules(cfgs, scratch, num=800, seed=seed) + \
+        harness.simulate_schedules(cfgs, scratch, num=300, seed=seed + 1, max_int=1)
+    rnd = random.Random(seed)
+    jobs = [{'id': f'G-s{k}', 'cfg': cfgs[ci], 'schedule': h, 'shape_seed': rnd.randrange(10 ** 6), 'progress': True}
+            for k, (ci, h, _e) in enumerate(scheds)]
+    # enough tasks of one type for the zero-padding to matter (10, 11 and 12 tasks: one and two digits)
+    for k, (n, backend) in enumerate([(10, 'serial'), (11, 'fork'), (12, 'serial'), (12, 'spawn')]):
+        deps = [[] for _ in range(n)]
+        deps[n - 1] = [1, 2]
+        wide = families.mk(n, deps, [1] * (n - 1) + [2], [UNL, UNL], [True, True], [], list(range(n, 0, -1)), backend, 3)
+        jobs.append({'id': f'G-w{k}', 'cfg': wide, 'schedule': [], 'shape_seed': k, 'progress': True})
+    traces = harness.run_jobs(jobs, scratch)
+    val = harness.validate_parallel(traces, scratch, props='G01,G02')
+    bad = {tid: v for tid, v in val['verdicts'].items() if v}
+    named = sum(1 for t in traces for e in t['ev'] if e.get('pname'))
+    bars = sum(1 for t in traces for e in t['ev'] if e['e'] == 'pb_new')
+    first = next(iter(bad.items()), None)
+    return (not bad and named > 0 and bars > 0), (
+        f'LabRun(Grow): {len(cfgs)} configurations, {mc.distinct} states; {len(traces)} executions with {named} observed process '
+        f'names and {bars} progress bars judged by the monitor, {len(bad)} disagree' + (f'; first: {first}' if first else ''))
+
+
 def main() -> int:
     t0 = time.time()
     ok = True
@@ -48,5 +84,8 @@ def main() -> int:
             good, msg = _one(scratch, *args)
             print(('[ok] ' if good else '[MISMATCH] ') + msg)
             ok = ok and good
+        good, msg = labrun_growth(scratch)
+        print(('[ok] ' if good else '[MISMATCH] ') + msg)
+        ok = ok and good
     print(f'growth specifications {"agree with the code" if ok else "DISAGREE with the code"} ({time.time() - t0:.0f}s)')
     return 0 if ok else 1
